@@ -282,7 +282,10 @@ def posIntersection : Nat → List Atom → SM (Option MappingAtomic)
         | none => pure none
         | some acc' => go acc' rest
     let _ := n
-    go ⟨[], none⟩ pos
+    -- (after fix D104) a clause without positive atoms is every object, not the closed `{}`
+    match pos with
+    | [] => pure (some ⟨[], some unknown⟩)
+    | _ => go ⟨[], none⟩ pos
 
 /-- `check_mapping_empty` (not a Map; after fix D70) -/
 def checkMappingEmpty : Nat → MappingAtomic → List MappingAtomic → SM Bool
